@@ -32,7 +32,12 @@ class SimpleGzipDecompressor(object):
         Also checks for errors such as truncated input.
         No other methods may be called on this object after `flush`.
         """
-        return self.decompressobj.flush()
+        data = self.decompressobj.flush()
+
+        if not self.decompressobj.eof:
+            raise zlib.error('Incomplete or truncated compressed stream')
+
+        return data
 
 
 class GzipDecompressor(SimpleGzipDecompressor):
